@@ -26,6 +26,7 @@ import copy
 import json
 import os
 import struct
+import time
 
 import env  # noqa: F401  (stubs + repo on sys.path)
 from yabgp.api.app import app  # must be imported before oslo.config parses its (empty) command line
@@ -84,13 +85,22 @@ def state_prefixes(remote_as):
         'established_second_conn': est + [('lost', 0), ('fire', 'TIdleHold'), ('connok', 1),
                                           ('data', 1, m['open_ok']), ('data', 1, m['keepalive'])],
         'stopped_attempt_pending': [('boot',), ('stop',)],
+        # Established with a peer that sent no capability at all / only route-refresh + IPv4 unicast:
+        # 2-octet AS encoding on the connection, no (cisco) route refresh resp. only type 5
+        'established_no_caps': est[:2] + [('data', 0, m['open_noopt']), ('data', 0, m['keepalive'])],
+        'established_2byte_as': est[:2] + [
+            ('data', 0, explore.frame(1, explore.open_body(asn=remote_as, caps=(
+                b'\x02\x06\x01\x04\x00\x01\x00\x01', b'\x02\x02\x02\x00')))),
+            ('data', 0, m['keepalive'])],
     }
     return p
 
 
 EXPECTED_FSM = {'idle_fresh': 1, 'connect': 2, 'opensent': 4, 'openconfirm': 5,
                 'established': 6, 'idle_manual_stop': 1, 'idle_after_loss': 1, 'idle_connect_failed': 1,
-                'established_second_conn': 6, 'stopped_attempt_pending': 1}
+                'established_second_conn': 6, 'stopped_attempt_pending': 1,
+                'established_no_caps': 6, 'established_2byte_as': 6}
+REDUCED_IN_QUICK = ('established_no_caps', 'established_2byte_as')   # quick: the four credential kinds only
 
 CONFIGS = {
     'ebgp': dict(local_as=65001, remote_as=65002),
@@ -191,6 +201,23 @@ def requested_update(body):
     return {'attr': out, 'nlri': body.get('nlri') or [], 'withdraw': body.get('withdraw') or []}
 
 
+def needs_peer_cap(body):
+    """does the extended-community text of the request make v1.py consult the peer's four_bytes_as
+    capability (route-origin:<as>:<n>; route-target:<as>:<n> with as > 65535)?  The examples used here
+    have AS numbers <= 65535, so the re-combined value itself never depends on the capability."""
+    for t in ((body.get('attr') or {}).get('16') or []):
+        key, _, value = t.partition(':')
+        for v in value.split(','):
+            first = v.strip().split(':')[0]
+            if '.' in first:
+                continue
+            if key.strip().lower() == 'route-origin':
+                return True
+            if key.strip().lower() == 'route-target' and first.isdigit() and int(first) > 65535:
+                return True
+    return False
+
+
 def coq_umsg(m):
     attrs = []
     for k, v in m['attr'].items():
@@ -226,7 +253,7 @@ def coq_payload(p):
     if k == 'action':
         return '(PAction %s)' % ('true' if p[1] in ('send', 'received') else 'false')
     if k == 'update':
-        return '(PUpdate %s)' % coq_umsg(requested_update(p[1]))
+        return '(%s %s)' % ('PUpdateCap' if needs_peer_cap(p[1]) else 'PUpdate', coq_umsg(requested_update(p[1])))
     if k == 'refresh':
         return '(PRefresh %d %d %d)' % (p[1], p[2], 0 if p[3] is None else p[3])
     if k == 'bin':
@@ -728,6 +755,7 @@ def req_json(req, cfg_name, conf, state_name):
 
 def run(ctx):
     mism, viol = [], []
+    t_start = time.time()
     # 0. the inventory generator (also run by check.py when it is listed in common.GENERATORS)
     rc, text, changed = regen_inventory()
     if rc != 0:
@@ -743,7 +771,10 @@ def run(ctx):
     plans = []      # (cfg, conf, state, full creds?, send spaces?)
     for cfg_name in ('ebgp', 'ibgp'):
         for st in EXPECTED_FSM:
-            plans.append((cfg_name, ('admin', 'admin'), st, True, spaces))
+            # quick tier: all credential variants on eBGP; on iBGP (which differs only in send/update) and in
+            # the two extra Established states the four kinds of the property text.  thorough: everything.
+            full = ctx.thorough or (st not in REDUCED_IN_QUICK and cfg_name == 'ebgp')
+            plans.append((cfg_name, ('admin', 'admin'), st, full, spaces))
     # a second credential pair (not the defaults; ':' in the password), reduced state set
     for st in ('idle_fresh', 'established', 'idle_manual_stop'):
         plans.append(('ebgp', ('operator', 's3cr3t:pw'), st, True, None))
@@ -816,6 +847,7 @@ def run(ctx):
             for i in range(0, len(done), per):
                 shards.append(shard_text(runner, conf, done[i:i + per]))
                 shard_index.append((cfg_name, conf, st, done[i:i + per]))
+    t_sweep = time.time()
     # session-model tie of the send events themselves (Driver 'sendupd' / 'sendbin' through protocol.py)
     traces = []
     if ctx.coq_ok:
@@ -857,6 +889,7 @@ def run(ctx):
                                         CLASS_NAME[obs['class']], [x[:2] for x in obs['delta']][:3]),
                              'input': req_json(req, cfg_name, conf, st)})
     extra = dict(stats)
+    extra['seconds'] = {'sweep_and_oracle': round(t_sweep - t_start, 1), 'coq_evaluation': round(time.time() - t_sweep, 1)}
     extra.update({
         'routes_in_url_map': len(rules), 'routes_under_v1_peer': len([r for r in rules if r['rule'].startswith('/v1/peer/')]),
         'methods': METHODS, 'credential_variants': CRED_KINDS,
